@@ -51,6 +51,9 @@ func checkC01(c *Check) {
 	if c.ID == "C01" {
 		importObls(c, "C03", checkC03, "C01.R4", func(o *Obligation) bool { return strings.HasPrefix(o.Key, "C03.R4/expiry-unknown") })
 		importObls(c, "C12", checkC12, "C01.R6", func(o *Obligation) bool { return strings.HasPrefix(o.Key, "C12.R2/tokens/expiry-after-token") })
+		// a refresh answer is accepted as a refresh only when it says so: the token_type test of the refresh validator is
+		// decisive (C11.R3) — an error document answered with status 200 must not keep an expired session alive
+		importObls(c, "C11", checkC11, "C01.R2", func(o *Obligation) bool { return strings.Contains(o.Key, "token-type-decisive") })
 	}
 	c01R5(c, R)
 	c01R6(c)
